@@ -49,6 +49,7 @@ static void checkC34(vh::Ctx& c, long i, vh::Rng& r, int nq, int forceKind) {
 static void checkC36(vh::Ctx& c, long i, vh::Rng& r, const vh::Args& a) {
     int kind = (int)(i % 6);
     long j = i / 6;
+    if (a.getInt("ckind", -1) >= 0) { kind = (int)a.getInt("ckind", -1); j = i; }   // investigation aid: --ckind k
     switch (kind) {
     case 0: case 1: {
         const bool thorough = a.tier == "thorough";
